@@ -505,9 +505,7 @@ impl Core {
             }
             let delivered = rx.recs.iter().any(|r| r.toi == toi && count(r, 'c') > 0 && *r.data.borrow() == *content);
             if !delivered {
-                let cls = if oi.tl == Some(0) {
-                    "C16:empty-object-before-fdt"
-                } else if let Some(k) = self.known_sender_class(s, oi) {
+                let cls = if let Some(k) = self.known_sender_class(s, oi) {
                     k
                 } else {
                     "C16:not-delivered"
